@@ -11,10 +11,10 @@ import (
 )
 
 func init() {
-	register(&Rule{ID: "E-BOUNDS-LOOP", Props: []string{"C09", "C12", "C03"}, Floor: 50,
+	register(&Rule{ID: "E-BOUNDS-LOOP", Props: []string{"C09", "C12", "C03", "C11"}, Floor: 50,
 		Doc: "every loop of the evaluator terminates within a number of iterations bounded by the sizes of its inputs: it ranges over a container, shrinks a string it tests for emptiness, or counts a variable with a constant step towards a limit that is bounded (by lengths, counts, decode sizes, small constants) on the side it is approached from; the magnitude of an integer taken from the expression or from a numeric argument never bounds a loop by itself. Loops that write one output element per iteration are bounded by the size of the result",
 		Run: ruleEBoundsLoop})
-	register(&Rule{ID: "E-BOUNDS-ALLOC", Props: []string{"C09", "C03"}, Floor: 25,
+	register(&Rule{ID: "E-BOUNDS-ALLOC", Props: []string{"C09", "C03", "C02"}, Floor: 25,
 		Doc: "the size of every allocation of the evaluator (make, strings.Builder.Grow, strings.Repeat) is bounded above by the sizes of its inputs, never by the magnitude of an integer argument or slice bound",
 		Run: ruleEBoundsAlloc})
 }
@@ -22,6 +22,28 @@ func init() {
 // boundAn decides, for integer SSA values, whether they are bounded above / below by a function of input sizes.
 type boundAn struct {
 	busy map[bkey]bool
+	// variadicNonEmpty: the parser builds variadic function nodes only with at least one argument
+	variadicNonEmpty bool
+}
+
+// variadicHelpersRejectEmpty: every variadic arity helper of the parser rejects an empty argument list
+// (its success returns are preceded by an append and it returns an arity error on an immediate `)`).
+func variadicHelpersRejectEmpty(p *Program) bool {
+	found := false
+	for _, fd := range p.FuncDecls(p.Parser) {
+		if fd.Recv == nil || !strings.HasPrefix(fd.Name.Name, "function") || fd.Name.Name == "function" {
+			continue
+		}
+		hs := helperSignature(p, fd)
+		if hs.max >= 0 {
+			continue
+		}
+		found = true
+		if hs.why != "" || hs.min < 1 {
+			return false
+		}
+	}
+	return found
 }
 type bkey struct {
 	v  ssa.Value
@@ -163,7 +185,7 @@ func (a *boundAn) bounded(v ssa.Value, b *ssa.BasicBlock, extra []condFact, ub b
 			// running minimum over the arguments of a variadic function node: `count := MaxInt; for range node.Arguments
 			// { if l < count { count = l } }`. The sentinel never survives the loop because the parser builds such nodes
 			// with at least one argument (P-FUNC-TABLE checks that the variadic helper rejects an empty list).
-			if c, ok := e.(*ssa.Const); ok && ub && isBigConst(c) && constant.Sign(c.Value) > 0 && rangesOverArguments(v.Block()) {
+			if c, ok := e.(*ssa.Const); ok && ub && isBigConst(c) && constant.Sign(c.Value) > 0 && rangesOverArguments(v.Block()) && a.variadicNonEmpty {
 				continue
 			}
 			var ex []condFact
@@ -407,7 +429,10 @@ func writesOutput(h *ssa.BasicBlock, body map[*ssa.BasicBlock]bool) bool {
 		for _, in := range b.Instrs {
 			if c, ok := in.(*ssa.Call); ok {
 				n := calleeFullName(&c.Call)
-				if n == "(*strings.Builder).WriteString" || n == "(*strings.Builder).WriteByte" || n == "(*strings.Builder).WriteRune" {
+				if n == "(*strings.Builder).WriteByte" || n == "(*strings.Builder).WriteRune" {
+					return true
+				}
+				if n == "(*strings.Builder).WriteString" && knownNonEmpty(b, c.Call.Args[1]) {
 					return true
 				}
 			}
@@ -417,6 +442,7 @@ func writesOutput(h *ssa.BasicBlock, body map[*ssa.BasicBlock]bool) bool {
 }
 
 func ruleEBoundsLoop(p *Program, r *Reporter) {
+	nonEmpty := variadicHelpersRejectEmpty(p)
 	for _, fn := range p.ReachFuncs(p.Eval) {
 		name := p.FuncName(fn)
 		loops := loopsOf(fn)
@@ -428,7 +454,7 @@ func ruleEBoundsLoop(p *Program, r *Reporter) {
 		for i, h := range headers {
 			body := loops[h]
 			key := fmt.Sprintf("%s loop#%d", name, i+1)
-			a := &boundAn{busy: map[bkey]bool{}}
+			a := &boundAn{busy: map[bkey]bool{}, variadicNonEmpty: nonEmpty}
 			// range over slice/map/string: a Next in the header or the rotated index form is handled by exit analysis
 			exits := loopExits(body)
 			okAny := false
@@ -467,12 +493,13 @@ func sortBlocks(bs []*ssa.BasicBlock) {
 }
 
 func ruleEBoundsAlloc(p *Program, r *Reporter) {
+	nonEmpty := variadicHelpersRejectEmpty(p)
 	for _, fn := range p.ReachFuncs(p.Eval) {
 		name := p.FuncName(fn)
 		n := 0
 		for _, b := range fn.Blocks {
 			for _, in := range b.Instrs {
-				a := &boundAn{busy: map[bkey]bool{}}
+				a := &boundAn{busy: map[bkey]bool{}, variadicNonEmpty: nonEmpty}
 				check := func(what string, sz ssa.Value) {
 					n++
 					key := fmt.Sprintf("%s %s#%d", name, what, n)
@@ -517,6 +544,49 @@ func rangesOverArguments(h *ssa.BasicBlock) bool {
 		}
 		if c, ok := bin.Y.(*ssa.Call); ok && builtinName(&c.Call) == "len" && isFieldLoad(c.Call.Args[0], "Arguments") {
 			return true
+		}
+	}
+	return false
+}
+
+// knownNonEmpty: the string is a non-empty constant, or a dominating fact fixes its rune/byte count to a positive constant
+// (utf8.RuneCountInString(p) != 1 exits, len(p) != 1 exits, len(p) == 0 exits).
+func knownNonEmpty(b *ssa.BasicBlock, s ssa.Value) bool {
+	if c, ok := s.(*ssa.Const); ok && c.Value != nil {
+		return constant.StringVal(c.Value) != ""
+	}
+	for _, f := range blockFacts(b) {
+		op, x, y, ok := f.rel()
+		if !ok {
+			continue
+		}
+		call, okc := x.(*ssa.Call)
+		k, okk := y.(*ssa.Const)
+		if !okc || !okk || k.Value == nil || len(call.Call.Args) != 1 || !sameValue(call.Call.Args[0], s) {
+			continue
+		}
+		n := calleeFullName(&call.Call)
+		if builtinName(&call.Call) != "len" && !strings.HasPrefix(n, "unicode/utf8.RuneCount") {
+			continue
+		}
+		v, _ := constant.Int64Val(k.Value)
+		switch op {
+		case token.EQL:
+			if v >= 1 {
+				return true
+			}
+		case token.NEQ:
+			if v == 0 {
+				return true
+			}
+		case token.GTR:
+			if v >= 0 {
+				return true
+			}
+		case token.GEQ:
+			if v >= 1 {
+				return true
+			}
 		}
 	}
 	return false
